@@ -222,8 +222,13 @@ func errCode(err error) string {
 	return "other"
 }
 
+// inflight records what the worker goroutines are running, for the watchdog.
+var inflight sync.Map // *spend -> start time
+
 // observe runs the spend: once with Execute, once stepwise recording stacks.
 func (s *spend) observe(maxSteps int) (r stepRes) {
+	inflight.Store(s, time.Now())
+	defer inflight.Delete(s)
 	defer func() {
 		if p := recover(); p != nil {
 			r.panicked = fmt.Sprintf("%v\n%s", p, debug.Stack())
